@@ -1,6 +1,7 @@
 package props
 
 import (
+	"bytes"
 	"encoding/binary"
 	"fmt"
 	"os"
@@ -141,6 +142,9 @@ func c10GetMenu(thorough bool) func(op string, key []byte) []env.Fault {
 				}
 			}
 			return o
+		}}, env.Fault{Name: "filter-no-regexp", Garble: func(d []byte) []byte {
+			// one byte of the persisted content-type filter flipped so that it no longer is a regular expression
+			return bytes.Replace(append([]byte(nil), d...), []byte("text|"), []byte("te(t|"), 1)
 		}}, env.Fault{Name: "respSize=huge", Garble: func(d []byte) []byte {
 			o := append([]byte(nil), d...)
 			if len(o) >= 8 {
@@ -164,7 +168,9 @@ type c10Spec struct {
 }
 
 func c10Config() *config.PikeConfig {
-	return env.BasicConfig(config.CacheConfig{Store: "fault://c10"})
+	cfg := env.BasicConfig(config.CacheConfig{Store: "fault://c10"})
+	cfg.Servers[0].CompressContentTypeFilter = "text|json" // (persisted with every record: one more field a store can garble)
+	return cfg
 }
 
 func c10Check(spec *c10Spec, r *env.Result, an *analysis, rid string, now int64) *vsched.Violation {
@@ -435,7 +441,7 @@ func c10SlowStoreOther(c *Ctx, name string, b vsched.Bounds, pass bool) Sched {
 
 func init() {
 	Register("C10", func(c *Ctx) {
-		c.Out.Rule = "(1) one request history {cold fetch, hit, expiry+refetch, hit, purge+fetch, restart+lookup, hit} + fault-free epilogue where every store call's answer is a data choice from {ok, not-found, error, record truncated at every field boundary (-1/0/+1), all-00, all-ff, empty, status field in {0,1,4,7}, expiredAt=0, expiredAt=-1, inflated response length}: all executions with at most 2 (quick) / 3 (thorough) non-ok answers; (2) every bounded schedule of 3 coalesced requests with store faults; oracle: every response 200 with the request's own body, label truth, hits only on the latest fetched body within its lifetime, memory-cached responses keep being hits, no request blocks"
+		c.Out.Rule = "(1) one request history {cold fetch, hit, expiry+refetch, hit, purge+fetch, restart+lookup, hit} + fault-free epilogue where every store call's answer is a data choice from {ok, not-found, error, record truncated at every field boundary (-1/0/+1), all-00, all-ff, empty, status field in {0,1,4,7}, expiredAt=0, expiredAt=-1, content-type filter that is no regular expression, inflated response length}: all executions with at most 2 (quick) / 3 (thorough) non-ok answers; (2) every bounded schedule of 3 coalesced requests with store faults; oracle: every response 200 with the request's own body, label truth, hits only on the latest fetched body within its lifetime, memory-cached responses keep being hits, no request blocks"
 		c.Out.Assume = []string{"origin always answers cacheable max-age=2", "store faults are per-call answers of the Store interface (redis/mongo client internals not modelled)"}
 		d := 2
 		pre := 2
